@@ -4,8 +4,10 @@
    the hypotheses are the well-formedness facts of the canonical model (C15) that the list-based document type does not
    carry: style dictionaries of regions have unique keys, regions have unique ids, references name regions of the
    document, region geometry is of its value class and not in em (style_properties.py validate).
-   Statements that are false of the faithful model are refuted in Findings/C16.v and proved here as `_partial` under
-   the executable triggers of Model/LcdCases.v. *)
+   The one statement that is false of the faithful model (the text timeline, finding lcd-nested-region-conflict) is refuted in
+   Findings/C16.v and proved here as `_partial` under the executable trigger of Model/LcdCases.v.  M follows /repo after the
+   repairs d8691ec (extent computed before tts:position), 5958b0b (tts:position supported on regions only) and 2d34128
+   (tts:textAlign in the fingerprint when it is preserved): whitelist and totality are full theorems since. *)
 From Coq Require Import Permutation.
 From TT Require Import Proofs.C16.All.
 
@@ -19,17 +21,16 @@ Proof. exact safe_area_thm. Qed.
 
 (* style keys of elements, regions and initial values are within displayAlign / extent / origin and, as configured,
    color / backgroundColor / textAlign (a configured colour is the only value of its key; textAlign is center unless preserved).
-   Full statement (false: Findings/C16.v C16_whitelist_refuted, finding lcd-position-survives):
-     forall c d d', lcd c d = Ok d' -> region_keys_unique d -> whitelist (c_pta c) (c_color c) (c_bg c) d'.
-   Partial: when tts:position occurs on region elements only. *)
-Theorem C16_whitelist_partial : forall c d d',
-  lcd c d = Ok d' -> region_keys_unique d -> trig_position_content d = false ->
+   Full since fix 5958b0b (tts:position is supported on regions only, where it is converted to tts:origin and removed). *)
+Theorem C16_whitelist : forall c d d',
+  lcd c d = Ok d' -> region_keys_unique d -> regions_childless d ->
   whitelist (c_pta c) (c_color c) (c_bg c) d'.
-Proof. exact whitelist_partial_thm. Qed.
+Proof. exact whitelist_thm. Qed.
 
 (* merged: the remaining regions are regions of the source and pairwise different in (timing, source writing mode,
-   resulting displayAlign) — the proof shows them different already in (timing, resulting displayAlign) *)
-Theorem C16_merged : forall c d d', lcd c d = Ok d' -> regions_have_ids d -> merged d d'.
+   resulting displayAlign and, when text alignment is preserved, their own textAlign: since fix 2d34128 regions that differ
+   in it are kept apart) — the proof shows them different already in (timing, resulting displayAlign, preserved textAlign) *)
+Theorem C16_merged : forall c d d', lcd c d = Ok d' -> regions_have_ids d -> merged (c_pta c) d d'.
 Proof. exact merged_thm. Qed.
 
 (* all references redirected: every region reference of the result names a region of the result *)
@@ -49,12 +50,11 @@ Proof. exact redirected_thm. Qed.
 Theorem C16_idempotent : forall c d d', lcd c d = Ok d' -> region_keys_unique d -> c_sa c < 50 -> lcd c d' = Ok d'.
 Proof. exact idem_thm. Qed.
 
-(* the filter succeeds (since fix a7b547e also with bg_color on a document without body).
-   Full statement (false: Findings/C16.v C16_total_refuted_position, finding lcd-position):
-     forall c d, lcd_typed d = true -> exists d', lcd c d = Ok d'.
-   Partial: no region carries tts:position with an extent that is not already in rh/rw. *)
-Theorem C16_total_partial : forall c d, lcd_typed d = true -> trig_position d = false -> exists d', lcd c d = Ok d'.
-Proof. exact total_partial_thm. Qed.
+(* the filter succeeds on every document whose region geometry is of its value class and units (style_properties.py validate,
+   enforced by set_style / put_initial_value) — since fix a7b547e also with bg_color on a document without body, since fix
+   d8691ec also on regions with tts:position, whatever their extent: no trigger is left *)
+Theorem C16_total : forall c d, lcd_typed d = true -> exists d', lcd c d = Ok d'.
+Proof. exact total_thm. Qed.
 
 (* text timeline: at every time the visible leaves — TTML2 leaf specification of Spec/IsdSpec.v (C01), each leaf tagged with
    the xml:id of its paragraph — are the same multiset before and after the filter.
@@ -75,6 +75,51 @@ Theorem C16_timeline_leaves_partial : forall c d d' t,
   Permutation (all_leaves_spec d t) (all_leaves_spec d' t).
 Proof. exact timeline_leaves_thm. Qed.
 
+(* nothing is lost — for EVERY document (display / visibility / opacity styling or not, nested region conflicts or not): at every time
+   every (paragraph, leaf) that is visible before the filter occurs after it at least as often.  (Text can be gained: the filter removes
+   display styling, and merging two regions resolves a nested conflict — the recorded finding.)  The second form is the executable
+   clause of Spec/LcdSpec.v that the check evaluates on the implementation's result. *)
+Theorem C16_timeline_kept : forall c d d' t,
+  lcd c d = Ok d' -> regions_have_ids d -> NoDup (rids (d_regions d)) -> refs_in_doc d ->
+  forall x, (cnt x (visible d t) <= cnt x (visible d' t))%nat.
+Proof. exact timeline_kept_thm. Qed.
+Theorem C16_timeline_kept_b : forall c d d' t,
+  lcd c d = Ok d' -> regions_have_ids d -> NoDup (rids (d_regions d)) -> refs_in_doc d -> timeline_kept_b d d' t = true.
+Proof. exact timeline_kept_b_thm. Qed.
+
+(* the filter succeeds and keeps the text timeline: totality and the timeline theorem in one statement *)
+Theorem C16_total_timeline_partial : forall c d t,
+  lcd_typed d = true -> regions_have_ids d -> NoDup (rids (d_regions d)) -> refs_in_doc d ->
+  no_hiding_b d = true -> trig_nested c d = false ->
+  exists d', lcd c d = Ok d' /\ timeline_at d d' t.
+Proof. exact total_timeline_thm. Qed.
+
+(* computed colours and alignment: in every snapshot (Model/Isd.v: the transcription of ISD.from_model tied to isd.py by C01/C03/C13)
+   of the filtered document, at every time, an element that carries tts:color carries the configured colour, every paragraph carries
+   the configured background colour, and — unless text alignment is preserved — tts:textAlign = center.  Hypothesis: the content
+   model of the canonical document (regions are region elements; in the body no region element, br/text without children, no p
+   inside a p — model.py's push_child type checks). *)
+Theorem C16_computed : forall c d d' t s,
+  lcd c d = Ok d' -> lcd_content_b d = true -> isd d' t = Ok s ->
+  computed_b (c_pta c) (c_color c) (c_bg c) s = true.
+Proof. exact computed_thm. Qed.
+
+(* preserved alignment: with preserve_text_align, for the alias function f of C16_redirected, every source region x and the region x' of
+   the result that stands for it (rid x' = f (rid x)) give every element of the body — every prefix of every chain — the same computed
+   text alignment (Spec/LcdSpec.v computed_align: nearest specified tts:textAlign going up, else the region's, else the initial value).
+   True since fix 2d34128 (regions are merged only when their own tts:textAlign agrees); ta_typed: region textAlign values are
+   enumeration members (TextAlign.validate). *)
+Theorem C16_alignment_preserved : forall c d d',
+  lcd c d = Ok d' -> c_pta c = true -> regions_have_ids d -> NoDup (rids (d_regions d)) -> refs_in_doc d -> ta_typed d ->
+  exists f, body_mapped f d d' /\ alias_ok f d d' /\ align_kept f d d'.
+Proof. exact align_thm. Qed.
+(* ... and computed_align is the value C03 specifies (Spec/StyleSpec.v `plain`, proved of the snapshot model by C03_plain_value) for a
+   chain without tts:textAlign animation: links are (element, interval) pairs from the root of the body down, r is the region *)
+Theorem C16_alignment_is_cascade : forall d t r riv, e_kind r = KRegion -> static_ta r ->
+  forall links : list StyleSpec.link, (forall x, In x links -> e_kind (fst x) <> KRegion /\ static_ta (fst x)) ->
+  StyleSpec.plain d t p_TextAlign (rev links ++ [(r, riv)]) = computed_align d r (map fst links).
+Proof. exact align_is_plain. Qed.
+
 (* the hypotheses are satisfiable by a document on which the filter does something: two regions of equal timing, the second
    referenced by a division with an animated, styled paragraph; the filter merges them, and the text stays visible *)
 Definition ex_region (i : text) (st : smap) : elem := Elem (mkAttrs KRegion (Some i) None None None st [] false [] []) [].
@@ -88,22 +133,63 @@ Definition ex_doc : doc :=
         [] 15 32 1080 1920 None None [].
 Definition ex_cfg : lcd_cfg := mkCfg 10 false (Some 4294967295) None.
 Example C16_example :
-  lcd_typed ex_doc = true /\ trig_position ex_doc = false /\ trig_position_content ex_doc = false /\
+  lcd_typed ex_doc = true /\ lcd_content_b ex_doc = true /\
   no_hiding_b ex_doc = true /\ trig_nested ex_cfg ex_doc = false /\
-  region_keys_unique ex_doc /\ regions_have_ids ex_doc /\ NoDup (rids (d_regions ex_doc)) /\ refs_in_doc ex_doc /\
+  region_keys_unique ex_doc /\ regions_childless ex_doc /\ regions_have_ids ex_doc /\ NoDup (rids (d_regions ex_doc)) /\ refs_in_doc ex_doc /\
   exists d', lcd ex_cfg ex_doc = Ok d' /\ Z.of_nat (length (d_regions d')) = 1 /\
-             visible ex_doc (inject_Z 2) = [(Some [112], LText [104; 105])] /\ visible d' (inject_Z 2) = [(Some [112], LText [104; 105])].
+             visible ex_doc (inject_Z 2) = [(Some [112], LText [104; 105])] /\ visible d' (inject_Z 2) = [(Some [112], LText [104; 105])] /\
+             exists s, isd d' (inject_Z 2) = Ok s /\ Z.of_nat (length s) = 1.
 Proof.
   repeat (split; [vm_compute; reflexivity|]).
   split. { intros r [<-|[<-|[]]]; cbn; repeat constructor; cbn; intuition discriminate. }
+  split. { intros r [<-|[<-|[]]]; reflexivity. }
   split. { intros r [<-|[<-|[]]]; eexists; reflexivity. }
   split. { cbn. repeat constructor; cbn; intuition discriminate. }
   split. { intros a r [<-|[<-|[<-|[<-|[<-|[]]]]]] H; cbn in H; try discriminate. inversion H; subst.
            exists (ex_region [114; 49] [(p_WritingMode, VEnum 2)]). split; [right; left; reflexivity | reflexivity]. }
-  eexists. split; [vm_compute; reflexivity|]. split; [reflexivity|]. split; vm_compute; reflexivity.
+  eexists. split; [vm_compute; reflexivity|]. split; [reflexivity|]. split; [vm_compute; reflexivity|]. split; [vm_compute; reflexivity|].
+  eexists. split; [vm_compute; reflexivity | reflexivity].
 Qed.
 
-(* the two repaired defects (fixed: a7b547e, c0beb1f) on their old witnesses: bg_color on a document without body succeeds;
+(* the three defects repaired in the second phase (d8691ec, 5958b0b, 2d34128) on their old witnesses: a region with tts:position
+   10% 10% and tts:extent 80% 80% is filtered; tts:position on a paragraph is gone; with preserve_text_align two regions that
+   differ only in tts:textAlign are kept apart (and merged without it) *)
+Definition ex_pos : value := VPos (mkLen (inject_Z 10) Upct) 0 (mkLen (inject_Z 10) Upct) 0.
+Definition ex_p (rs : list elem) (pst : smap) : doc :=
+  mkDoc rs (Some (Elem (mkAttrs KBody None None None None [] [] false [] [])
+                    [Elem (mkAttrs KDiv None None None (Some [114; 49]) [] [] false [] [])
+                       [Elem (mkAttrs KP (Some [112]) None None None pst [] false [] []) []]])) [] 15 32 1080 1920 None None [].
+Example C16_repaired_witnesses :
+  (exists d', lcd (mkCfg 10 false None None)
+                  (ex_p [ex_region [114; 49] [(p_Position, ex_pos); (p_Extent, VExtent (mkLen (inject_Z 80) Upct) (mkLen (inject_Z 80) Upct))]] []) = Ok d') /\
+  (exists d', lcd (mkCfg 10 false None None) (ex_p [ex_region [114; 49] []] [(p_Position, ex_pos)]) = Ok d' /\
+              whitelist_b false None None d' = true) /\
+  (exists d', lcd (mkCfg 10 true None None) (ex_p [ex_region [114; 48] [(p_TextAlign, VEnum 0)]; ex_region [114; 49] [(p_TextAlign, VEnum 1)]] []) = Ok d' /\
+              Z.of_nat (length (d_regions d')) = 2) /\
+  (exists d', lcd (mkCfg 10 false None None) (ex_p [ex_region [114; 48] [(p_TextAlign, VEnum 0)]; ex_region [114; 49] [(p_TextAlign, VEnum 1)]] []) = Ok d' /\
+              Z.of_nat (length (d_regions d')) = 1).
+Proof.
+  split; [eexists; vm_compute; reflexivity|].
+  split; [eexists; split; vm_compute; reflexivity|].
+  split; eexists; (split; [vm_compute; reflexivity | reflexivity]).
+Qed.
+
+(* the hypotheses of C16_alignment_preserved are satisfiable: two regions with different tts:textAlign, preserve_text_align set *)
+Definition ex_ta_doc : doc := ex_p [ex_region [114; 48] [(p_TextAlign, VEnum 0)]; ex_region [114; 49] [(p_TextAlign, VEnum 1)]] [].
+Example C16_alignment_example :
+  c_pta (mkCfg 10 true None None) = true /\ regions_have_ids ex_ta_doc /\ NoDup (rids (d_regions ex_ta_doc)) /\ refs_in_doc ex_ta_doc /\
+  ta_typed ex_ta_doc /\ exists d', lcd (mkCfg 10 true None None) ex_ta_doc = Ok d'.
+Proof.
+  split; [reflexivity|].
+  split. { intros r [<-|[<-|[]]]; eexists; reflexivity. }
+  split. { cbn. repeat constructor; cbn; intuition discriminate. }
+  split. { intros a r [<-|[<-|[<-|[]]]] H; cbn in H; try discriminate. inversion H; subst.
+           exists (ex_region [114; 49] [(p_TextAlign, VEnum 1)]). split; [right; left; reflexivity | reflexivity]. }
+  split. { intros r [<-|[<-|[]]]; exact I. }
+  eexists. vm_compute. reflexivity.
+Qed.
+
+(* the two defects repaired earlier (fixed: a7b547e, c0beb1f) on their old witnesses: bg_color on a document without body succeeds;
    a region with end = 0 is no longer merged with an always-active one *)
 Example C16_fixed_witnesses :
   (exists d', lcd (mkCfg 10 false None (Some 4278190335)) (mkDoc [] None [] 15 32 1080 1920 None None []) = Ok d') /\
@@ -112,7 +198,8 @@ Example C16_fixed_witnesses :
                          None [] 15 32 1080 1920 None None []) = Ok d' /\ Z.of_nat (length (d_regions d')) = 2).
 Proof. split; eexists; [vm_compute; reflexivity | split; [vm_compute; reflexivity | reflexivity]]. Qed.
 
-Print Assumptions C16_no_anim.  Print Assumptions C16_safe_area.  Print Assumptions C16_whitelist_partial.
+Print Assumptions C16_no_anim.  Print Assumptions C16_safe_area.  Print Assumptions C16_whitelist.
 Print Assumptions C16_merged.  Print Assumptions C16_refs_redirected.  Print Assumptions C16_redirected.  Print Assumptions C16_idempotent.
-Print Assumptions C16_total_partial.  Print Assumptions C16_timeline_partial.  Print Assumptions C16_timeline_leaves_partial.
-Print Assumptions C16_example.  Print Assumptions C16_fixed_witnesses.
+Print Assumptions C16_total.  Print Assumptions C16_total_timeline_partial.  Print Assumptions C16_computed.
+Print Assumptions C16_timeline_kept.  Print Assumptions C16_timeline_kept_b.  Print Assumptions C16_alignment_preserved.  Print Assumptions C16_alignment_is_cascade.  Print Assumptions C16_timeline_partial.  Print Assumptions C16_timeline_leaves_partial.
+Print Assumptions C16_example.  Print Assumptions C16_alignment_example.  Print Assumptions C16_repaired_witnesses.  Print Assumptions C16_fixed_witnesses.
